@@ -1,0 +1,12 @@
+//go:build verif
+
+package wallet
+
+// VerifResendUnminedTxs runs the wallet's rebroadcast of unconfirmed
+// transactions synchronously, so a monitor has a completion point after which
+// the backend's record of offered transactions can be inspected.  The
+// production trigger runs the same method in a detached goroutine.
+// Verification builds only.
+func (w *Wallet) VerifResendUnminedTxs() {
+	w.resendUnminedTxs()
+}
